@@ -345,12 +345,6 @@ def first_diff(g, e, where="root"):
     return None
 
 
-def _is_xonsh_attr(node):
-    while isinstance(node, ast.Attribute):
-        node = node.value
-    return isinstance(node, ast.Name) and node.id == "__xonsh__"
-
-
 def xonsh_calls(tree):
     """names of all `__xonsh__.<...>` helpers referenced in the tree"""
     out = []
@@ -425,6 +419,10 @@ def eval_py_src(src, sess):
         tree = None
         a_sig = "reject"
         a_obs = f"SyntaxError: {e}"[:200]
+    except Exception as e:  # noqa: BLE001 - the transformer itself fell over on valid Python
+        tree = None
+        a_sig = "crash:" + type(e).__name__
+        a_obs = f"{type(e).__name__}: {e}"[:200]
     if tree is not None:
         tree = _BuiltinCmdToName().visit(tree)
         calls = xonsh_calls(tree)
@@ -492,7 +490,7 @@ def eval_del_src(bare, expl, sess, use_line, argv=None):
         return {"status": "drop:del-precondition"}  # CPython does not see the name as deleted at the use
     try:
         te = parse_ctx(expl, sess)
-    except SyntaxError:
+    except Exception:  # noqa: BLE001 - the explicit spelling itself is not accepted: nothing to compare with
         return {"status": "drop:explicit-unparsable"}
     sig = obs = None
     try:
@@ -500,6 +498,9 @@ def eval_del_src(bare, expl, sess, use_line, argv=None):
     except SyntaxError as e:
         tb = None
         sig, obs = "reject", f"SyntaxError: {e}"[:200]
+    except Exception as e:  # noqa: BLE001
+        tb = None
+        sig, obs = "crash:" + type(e).__name__, f"{type(e).__name__}: {e}"[:200]
     if tb is not None:
         d = first_diff(tb, te)
         if d:
